@@ -68,6 +68,11 @@ CHECKS["C12"] = ("exploration",
  "All strings of length <= 2 over a 48-piece byte alphabet (every control/quote/backslash/DEL class, every UTF-8 lead and continuation class, surrogate encodings, U+2028/9, U+FFFD, boundary code points) and of length 3 over 24 of them, each as value, object key and nested; ~50 numbers covering float64 bit-pattern classes and format thresholds, NaN/inf, non-canonical json.Number literals and big integers; containers of depth 0..40 (thorough 0..70, 129, 200), width to 1000 (9000) and sizes on either side of the encoder's 8 KiB flush. Every value is rendered by Marshal, tojson, tostring, @json, @text and by the command's own encoder (hook VerifEncode) in every option combination (compact, indent 0..9, tab; plain and coloured); each output must be valid UTF-8, well-formed JSON holding one value, read back equal (modulo NaN->null, infinity saturation, U+FFFD per invalid byte), agree with Marshal modulo insignificant white space and SGR sequences, and be indented by exactly depth x unit on every line; tojson|fromjson is the identity. Encoder and Marshal reuse histories, the real command line with --arg, and a --yaml-output/--yaml-input round trip for every valid string.",
  "Trusted: encoding/json as the reader. A double's text is compared as a double.",
  "DESIGN.md §4 C12")
+CHECKS["C13"] = ("exploration",
+ "exhaustive evaluation of 15 inverse-pair laws over value universes, separator pairs and an epoch boundary set",
+ "Every value of the builtin universe extended with objects over empty, multi-byte and escape-needing keys, empty containers at every position and all strings of length <= 2 over the C12 alphabet is run through 15 inverse-pair laws (fromstream(tostream), to_entries|from_entries, with_entries(.), explode|implode, @base64|@base64d, @uri|@urid, tojson|fromjson, tostring|tonumber, setpath/getpath over all paths, [paths] vs path(..), tostream leaves and their replay with setpath), each evaluated through the public API as a jq program returning (lhs, rhs) that is compared with the harness's own equality; split(s)|join(s) for every (string, non-empty separator) pair; todate|fromdate, gmtime|mktime and two mixed compositions on ~98k epochs (+-1 s around day/month/leap/year/century boundaries of ~50 years between 1 and 9999, +-10^k, 32-bit limits, a 37-day grid over the whole range) in three number representations; tostring|tonumber and tojson|fromjson on the C10 integer set in every representation and on float classes.",
+ "Domains are those of the statement. One known finding: the first second of year 1 does not survive todate|fromdate.",
+ "DESIGN.md §4 C13")
 NOT_YET = "check not built yet (work in progress in this session); see DESIGN.md for the planned exploration"
 
 def commits():
